@@ -22,6 +22,7 @@ META = {
     "unfiltered table InputData defines and adds exactly the entries whose is_taxable() holds into an unfiltered MIXED set; that every iteration of the "
     "matching loop adds exactly one fraction and the earn branch builds a lot-less fraction for the event's own amount (with the constructor rejecting any other amount); "
     "and that the amount to match is crypto_in / crypto_out_with_fee / sent-received per class.",
+    "restated": "the yearly lines count every reported fraction once, under its own type and year (C06.c, d, g)",
     "not_decided": "that ezodf / the entry-set iterators deliver every row (C11's chain); run-time values.",
     "assumptions": ["Enum membership and == on Enum members behave as in CPython", "AbstractEntrySet iteration yields every entry inside [MIN_DATE, MAX_DATE] (C10.a)"],
 }
